@@ -282,8 +282,13 @@ def noise_variants(doc, rnd, k=3, each_kind=False):
             elif kind == "foreign_attr":
                 tgt.set("{http://example.com/noise}flag", "1")
             elif kind == "symbol":
-                e = etree.SubElement(root, f"{{{NS}}}symbol")
-                etree.SubElement(e, f"{{{NS}}}rect", width="500", height="500")
+                # id-less symbol (nothing can instantiate it), as editors write them: its content carries ids nobody refers to; placed at
+                # the root or next to the target element
+                host = root if rnd.random() < 0.5 or parent is None or inside_special else parent
+                e = etree.SubElement(host, f"{{{NS}}}symbol")
+                etree.SubElement(e, f"{{{NS}}}rect", width="500", height="500", id=f"noise-symbol-rect-{rnd.randint(0, 999)}")
+                gg = etree.SubElement(e, f"{{{NS}}}g", id=f"noise-symbol-layer-{rnd.randint(0, 999)}")
+                etree.SubElement(gg, f"{{{NS}}}path", d="M0,0 L9,0 L9,9 Z")
             elif kind == "wrapper" and parent is not None and not inside_special and etree.QName(tgt).localname not in ("defs", "stop"):
                 g = etree.Element(f"{{{NS}}}g")
                 tgt.addprevious(g)
